@@ -2,8 +2,10 @@
 
 (M) spec/Requirements.tla model-checked: record evolution over repeated runs and external changes,
     the clauses of the statement as (action) properties over Select / Decide / RecordsOk.
-(T) generated histories through the real code: requirement lines (classified forms rendered to text)
-    written as real files under a scratch pyscript folder in all permutations of lines and file
+(T) generated histories through the real code: requirement lines (token sequences: a form's requirement text,
+    padding, and a generated comment that may contain anything - specifiers, '==', commas, names, versions,
+    further '#'; what a line means is RequirementsCore!Classify on the tokens, the form label is only
+    cross-checked) written as real files under a scratch pyscript folder in all permutations of lines and file
     boundaries (exhaustive up to 4 lines, sampled above) through `process_all_requirements`; then the
     real `install_requirements` on a HomeAssistant test instance with a real config entry, the
     installer (`async_process_requirements`) and `installed_version` replaced by a scripted
@@ -45,19 +47,115 @@ def vtext(v):
     return ".".join(str(x) for x in v)
 
 
-def render(l):
-    """Text of a classified line (the bridge between RequirementsCore!Kind and the parser under test)."""
-    p, v, f = l["p"], vtext(l["v"]), l["f"]
+# ---------------------------------------------------------------- lines as token sequences (the text)
+# A line is {f, p, v, toks, cm}: toks = the text as tokens {t, s, v} (RequirementsCore!Classify says what it
+# means), f/p/v = the label of the form the generator meant to write (cross-checked by RequirementsCore!LabelOk,
+# clause "bridge"), cm = kind of comment attached ("" none, "plain", "tricky": contains specifier symbols).
+SPEC_SYMS = ["==", ">=", "<=", ">", "<", "~=", "!=", ",", "==="]          # = RequirementsCore!SpecSyms
+WORDS = ["pinned", "here", "see", "issue", "12", "fixes", "the", "crash", "any", "version", "was", "before", "foo", "-r", "TODO:",
+         "[extra]", ";", "python_version", "'3.8'", "1.x", "http://x/y"]
+WS = [" ", " ", "  ", "\t"]
+
+
+def T(t, s="", v=()):
+    return {"t": t, "s": s, "v": list(v)}
+
+
+def tok_text(x):
+    """The bridge: text of one token; a line's text is the concatenation."""
+    return vtext(x["v"]) if x["t"] == "ver" else x["s"]
+
+
+def body(f, p, v):
+    """Tokens of the requirement part of a form (no padding, no comment)."""
+    N, V, S, W = T("name", p), T("ver", v=v), lambda s: T("sym", s), T("ws", " ")
     return {
-        "pin": "%s==%s" % (p, v), "pin_comment": "%s==%s  # pinned here" % (p, v), "pin_padded": "  %s==%s  " % (p, v),
-        "spaced": "%s == %s" % (p, v),
-        "unpinned": p, "unpinned_comment": "%s  # any version" % p,
-        "comment": "# %s==%s" % (p, v), "blank": "", "white": "   ",
-        "ge": "%s>=%s" % (p, v), "le": "%s<=%s" % (p, v), "gt": "%s>%s" % (p, v), "lt": "%s<%s" % (p, v),
-        "compat": "%s~=%s" % (p, v), "ne": "%s!=%s" % (p, v),
-        "multi": "%s==%s,<9" % (p, v), "double": "%s==%s==9.9" % (p, v),
-        "badver": "%s==foo" % p, "emptyver": "%s==" % p, "triple": "%s===%s" % (p, v),
+        "pin": [N, S("=="), V], "pin_comment": [N, S("=="), V], "pin_padded": [N, S("=="), V], "spaced": [N, W, S("=="), W, V],
+        "unpinned": [N], "unpinned_comment": [N], "comment": [], "blank": [], "white": [],
+        "ge": [N, S(">="), V], "le": [N, S("<="), V], "gt": [N, S(">"), V], "lt": [N, S("<"), V],
+        "compat": [N, S("~="), V], "ne": [N, S("!="), V],
+        "multi": [N, S("=="), V, S(","), S("<"), T("ver", v=[9])], "double": [N, S("=="), V, S("=="), T("ver", v=[9, 9])],
+        "badver": [N, S("=="), T("word", "foo")], "emptyver": [N, S("==")], "triple": [N, S("==="), V],
     }[f]
+
+
+PLAIN_COMMENT = {"pin_comment": ["pinned", "here"], "unpinned_comment": ["any", "version"]}
+
+
+def plain_comment(words):
+    out = [T("sym", "#")]
+    for w in words:
+        out += [T("ws", " "), T("word", w)]
+    return out
+
+
+def gen_comment(r, pkgs, p, vs):
+    """'#' and anything after it: words, package names (also the line's own), versions, specifier symbols, '==', commas,
+    further '#' - in any order."""
+    x = r.random()
+    if x < 0.25:
+        return plain_comment(r.sample(WORDS[:12], r.randint(0, 3)))
+    out = [T("sym", "#")]
+    if r.random() < 0.8:
+        out.append(T("ws", r.choice(WS)))
+    if x < 0.45:                                      # looks like a requirement: "was aa>=1.0,!=1.1"
+        out += [T("word", r.choice(["was", "before", "see"])), T("ws", " "), T("name", r.choice([p] + pkgs)), T("sym", r.choice(SPEC_SYMS[:7])),
+                T("ver", v=r.choice(vs))]
+        if r.random() < 0.5:
+            out += [T("sym", ","), T("sym", r.choice(SPEC_SYMS[1:7])), T("ver", v=r.choice(vs))]
+    elif x < 0.6:                                     # a pin of the same package in the comment, maybe behind a second '#'
+        out += [T("name", p), T("sym", "=="), T("ver", v=r.choice(vs + [[9, 9]]))]
+        if r.random() < 0.5:
+            out += [T("ws", " "), T("sym", "#"), T("ws", " "), T("word", r.choice(WORDS))]
+    else:                                             # token soup
+        for _ in range(r.randint(1, 7)):
+            y = r.random()
+            out.append(T("sym", r.choice(SPEC_SYMS)) if y < 0.35 else T("word", r.choice(WORDS)) if y < 0.6 else
+                       T("name", r.choice([p] + pkgs)) if y < 0.75 else T("ver", v=r.choice(vs)) if y < 0.9 else T("sym", "#"))
+            if r.random() < 0.5:
+                out.append(T("ws", r.choice(WS)))
+    return out
+
+
+def is_spec(t):
+    return t["t"] == "sym" and t["s"] in SPEC_SYMS
+
+
+def make_line(f, p, v, r=None, pkgs=(), vs=()):
+    """A line of form f.  Without r: the canonical text of the form.  With r: random padding and a generated comment -
+    every form may carry one (the label stays: a comment never changes what a line is; a blank line with a comment is
+    the form "comment")."""
+    comment = None
+    if r is None:
+        if f in PLAIN_COMMENT:
+            comment = plain_comment(PLAIN_COMMENT[f])
+        elif f == "comment":
+            comment = [T("sym", "#"), T("ws", " "), T("name", p), T("sym", "=="), T("ver", v=v)]
+    elif f in PLAIN_COMMENT or f == "comment" or (f != "white" and r.random() < 0.3):
+        comment = gen_comment(r, list(pkgs), p, list(vs))
+        if f == "blank":
+            f = "comment"
+    lead = [T("ws", "  ")] if f in ("pin_padded", "white") else []
+    trail = [T("ws", "  ")] if f == "pin_padded" else []
+    if r is not None and f not in ("blank", "white"):
+        if r.random() < 0.1:
+            lead = [T("ws", r.choice(WS))]
+        if r.random() < 0.1:
+            trail = [T("ws", r.choice(WS))]
+    toks = lead + body(f, p, v)
+    if comment is not None:
+        if toks and toks[-1]["t"] != "ws":
+            toks.append(T("ws", "  " if r is None else r.choice(WS)))          # (an inline comment is preceded by white space)
+        toks += comment
+    toks += trail
+    hashes = [i for i, t in enumerate(toks) if t["t"] == "sym" and t["s"] == "#"]
+    cm = "" if not hashes else "tricky" if any(is_spec(t) for t in toks[hashes[0]:]) else "plain"          # (statistics only)
+    return {"f": f, "p": p, "v": list(v), "toks": toks, "cm": cm}
+
+
+def render(l):
+    """Text of a line: the concatenation of its token texts."""
+    return "".join(tok_text(x) for x in l["toks"])
 
 
 def ver_obs(text):
@@ -96,7 +194,7 @@ def gen_lines(r, pkgs, risky, lo=0, hi=6):
         else:
             f = r.choice(IGNORED_FORMS)
         vs = [v for v in VERSIONS if risky == "spelling" or v != [1, 0, 0]]
-        lines.append({"f": f, "p": p, "v": r.choice(vs) if f not in ("unpinned", "unpinned_comment") else []})
+        lines.append(make_line(f, p, r.choice(vs) if f not in ("unpinned", "unpinned_comment") else [], r, pkgs, vs))
     return lines
 
 
@@ -300,7 +398,7 @@ def gen_yaml_history(r, hid, quick=True):
 
 
 def yaml_witness():
-    L = lambda v: {"f": "pin", "p": "aa", "v": list(v)}      # noqa: E731
+    L = lambda v: make_line("pin", "aa", list(v))      # noqa: E731
     run = lambda v: {"lines": [L(v)], "allow": True, "ext": {}, "layouts": [{"requirements.txt": [0]}], "install_layout": 0,      # noqa: E731
                      "latest": {"aa": "2.0"}}
     return {"id": "W/yaml-reload-keeps-record", "risky": None, "masked": True, "yaml": True, "pkgs": ["aa"], "env": {"aa": None}, "rec": {},
@@ -438,30 +536,55 @@ def accept(ctx, cases, label):
     return {r["id"]: r for r in res.rejects}
 
 
+def only_tricky_line(run):
+    """A pinned / unpinned line with specifier symbols in its comment that is the only line of its package, or None."""
+    for l in run["lines"]:
+        if l["cm"] == "tricky" and l["f"] in PIN_FORMS + UNPINNED_FORMS + ["spaced"] and sum(1 for m in run["lines"] if m["p"] == l["p"]) == 1 \
+                and run["sels"] and all(any(e["p"] == l["p"] for e in t) for t in run["sels"]):
+            return l
+    return None
+
+
 def corruptions(cases):
+    """Corrupted copies of recordings (observations changed, inputs kept): TLC must reject each at the corrupted run."""
+    def dropcall(run, k, c2):
+        c2["runs"][k]["calls"] = run["calls"][1:]
+
+    def notallowed(run, k, c2):
+        c2["runs"][k]["allow"] = False
+
+    def record(run, k, c2):
+        p = [p for p in P4 if run["rec2"][p]][0]
+        c2["runs"][k]["rec2"][p] = run["rec2"][p] + [7]
+
+    def selection(run, k, c2):
+        e = c2["runs"][k]["sels"][0][0]
+        e["r"] = {"k": "unpinned"} if e["r"]["k"] == "pin" else {"k": "pin", "v": [3]}
+
+    def commentdrop(run, k, c2):          # the line was dropped because of what its comment says
+        p = only_tricky_line(run)["p"]
+        c2["runs"][k]["sels"] = [[e for e in t if e["p"] != p] for t in run["sels"]]
+
+    def commentpin(run, k, c2):           # the pin inside a comment was taken for a pin
+        p = [l for l in run["lines"] if l["f"] == "comment" and l["cm"] == "tricky"][0]["p"]
+        c2["runs"][k]["sels"] = [[e for e in t if e["p"] != p] + [{"p": p, "r": {"k": "pin", "v": [9, 9]}}] for t in run["sels"]]
+
+    kinds = [("dropcall", lambda run: bool(run["calls"]), dropcall), ("notallowed", lambda run: bool(run["calls"]), notallowed),
+             ("record", lambda run: any(run["rec2"][p] for p in P4), record), ("selection", lambda run: bool(run["sels"] and run["sels"][0]), selection),
+             ("commentdrop", lambda run: only_tricky_line(run) is not None, commentdrop),
+             ("commentpin", lambda run: bool(run["sels"]) and any(l["f"] == "comment" and l["cm"] == "tricky" for l in run["lines"]), commentpin)]
     bad, want = [], {}
     for c in cases:
-        if len(bad) >= 60:
+        if len(bad) >= 90:
             break
+        name, applies, apply = kinds[len(bad) % len(kinds)]
         for k, run in enumerate(c["runs"]):
-            c2 = copy.deepcopy(c)
-            if run["calls"] and len(bad) % 4 == 0:
-                c2["id"] = "corrupt-dropcall/" + c["id"]
-                c2["runs"][k]["calls"] = run["calls"][1:]
-            elif run["calls"] and len(bad) % 4 == 1:
-                c2["id"] = "corrupt-notallowed/" + c["id"]
-                c2["runs"][k]["allow"] = False
-            elif any(run["rec2"][p] for p in P4) and len(bad) % 4 == 2:
-                p = [p for p in P4 if run["rec2"][p]][0]
-                c2["id"] = "corrupt-record/" + c["id"]
-                c2["runs"][k]["rec2"][p] = run["rec2"][p] + [7]
-            elif run["sels"] and run["sels"][0] and len(bad) % 4 == 3:
-                c2["id"] = "corrupt-selection/" + c["id"]
-                e = c2["runs"][k]["sels"][0][0]
-                e["r"] = {"k": "unpinned"} if e["r"]["k"] == "pin" else {"k": "pin", "v": [3]}
-            else:
+            if not applies(run):
                 continue
-            c2["of"] = c["id"]
+            c2 = copy.deepcopy(c)
+            c2["id"] = "corrupt-%s/%s" % (name, c["id"])
+            apply(run, k, c2)
+            c2["of"], c2["kind"] = c["id"], name
             bad.append(c2)
             want[c2["id"]] = k + 1
             break
@@ -477,6 +600,9 @@ def validate(ctx, cases, label, selftest=True):
         if not rj:
             continue
         run = c["runs"][rj["at"] - 1]
+        if rj["why"] == "bridge":
+            raise MachineryFailure("the text of a generated line does not mean what its label says (RequirementsCore!LabelOk): %s" % [
+                (render(l), l["f"], l["p"], l["v"]) for l in run["lines"]])
         sig = {"clause": rj["why"], "form": c["risky"] or "none"}
         what = "%s rejected in run %d (risky form: %s): lines %s -> tables %s, installer %s, record %s%s" % (
             rj["why"], rj["at"], c["risky"], run["raw"]["texts"], [[(e["p"], e["r"].get("v", e["r"].get("s", "unpinned"))) for e in t] for t in run["sels"]][:3],
@@ -495,6 +621,12 @@ def validate(ctx, cases, label, selftest=True):
         if missed:
             raise MachineryFailure("selftest: corrupted recordings accepted or rejected too late: %s" % missed[:3])
         ctx.cov["selftest_corruptions_rejected"] = len(bad)
+        kinds = {}
+        for b_ in bad:
+            kinds[b_["kind"]] = kinds.get(b_["kind"], 0) + 1
+        ctx.cov["selftest_corruptions_by_kind"] = dict(sorted(kinds.items()))
+        if not kinds.get("commentdrop") or not kinds.get("commentpin"):
+            raise MachineryFailure("selftest: no corrupted recording of a line with a requirement-like comment (%s)" % kinds)
     return rejects
 
 
@@ -506,7 +638,7 @@ def witnesses():
         lay = [{"requirements.txt": list(pm)} for pm in itertools.permutations(range(n))]
         return {"id": hid, "risky": risky, "masked": False, "pkgs": ["aa"], "env": env or {"aa": None}, "rec": rec or {},
                 "runs": [{"lines": lines, "allow": True, "ext": {}, "layouts": lay, "install_layout": 0, "latest": {"aa": "2.0"}}]}
-    L = lambda f, v=(1, 0): {"f": f, "p": "aa", "v": list(v) if f not in ("unpinned",) else []}      # noqa: E731
+    L = lambda f, v=(1, 0): make_line(f, "aa", list(v) if f not in ("unpinned",) else [])      # noqa: E731
     return [
         hist("W/badver", "badver", [L("badver"), L("pin")]),
         hist("W/emptyver", "emptyver", [L("emptyver")]),
@@ -515,7 +647,31 @@ def witnesses():
         hist("W/compat", "compat", [L("compat")]),
         hist("W/ne", "ne", [L("ne")]),
         hist("W/spelling", "spelling", [L("unpinned")], env={"aa": "1.0.0"}, rec={"aa": "1.0"}),
-    ]
+    ] + comment_witnesses()
+
+
+def comment_witnesses():
+    """Every kind of line with every specifier symbol (and '==', ',', '#') in its comment, one at a time and together:
+    fixed histories, so this part of the input space is visited whatever the seed."""
+    S, W, N, V, D = lambda s: T("sym", s), T("ws", " "), lambda p: T("name", p), lambda *v: T("ver", v=v), lambda w: T("word", w)      # noqa: E731
+    tails = {sym: [S("#"), W, D("was"), W, N("aa"), S(sym), V(2, 0)] for sym in SPEC_SYMS if sym != ","}
+    tails[","] = [S("#"), W, D("fixes"), W, D("the"), W, D("crash"), S(","), W, D("see"), W, D("issue"), W, D("12")]
+    tails["#"] = [S("#"), D("x"), W, S("#"), W, N("aa"), S("=="), V(9, 9)]
+    out = []
+    for n, (sym, tail) in enumerate(sorted(tails.items())):
+        def line(f, p, v, b):
+            return {"f": f, "p": p, "v": list(v), "toks": b + ([W, W] if b else []) + copy.deepcopy(tail), "cm": "tricky"}
+        lines = [line("pin_comment", "aa", [1, 10], [N("aa"), S("=="), V(1, 10)]), make_line("pin", "aa", [1, 9]),
+                 line("unpinned_comment", "bb", [], [N("bb")]), line("comment", "cc", [1, 0], []),
+                 line("ge", "dd", [1, 0], [N("dd"), S(">="), V(1, 0)]),
+                 line("pin_comment", "cc", [1, 0], [N("cc"), S("=="), V(1, 0)])]
+        lines = lines[:5] if n % 2 else lines
+        lay = [{"requirements.txt": list(pm)} for pm in itertools.permutations(range(len(lines)))][::17] + \
+              [{"requirements.txt": [0, 1], "apps/a1/requirements.txt": [2, 3], "modules/m1/requirements.txt": list(range(4, len(lines)))}]
+        out.append({"id": "W/comment-with-%s" % sym, "risky": None, "masked": True, "pkgs": list(P4), "env": {"aa": None, "bb": None, "cc": None, "dd": "1.0"},
+                    "rec": {}, "runs": [{"lines": lines, "allow": True, "ext": {}, "layouts": lay, "install_layout": n % len(lay),
+                                         "latest": {p: "2.0" for p in P4}}]})
+    return out
 
 
 def mc_configs(ctx):
@@ -566,7 +722,7 @@ def main(ctx):
         if res.coverage and any(t == 0 for a, (d, t) in res.coverage.items() if a in ("Run", "External")):
             raise MachineryFailure("model checking: an action was never taken: %s" % res.coverage)
         ctx.add_tlc(res, "Requirements(%s)" % label)
-    ctx.cov["witnesses_reached"] = 5 if mcs else 0
+    ctx.cov["witnesses_reached"] = 8 if mcs else 0
     cases = [c for r in results for c in r]
     rejects = validate(ctx, cases, "histories")
     runs = [run for c in cases for run in c["runs"]]
@@ -601,6 +757,19 @@ def main(ctx):
         for l in run["lines"]:
             forms[l["f"]] = forms.get(l["f"], 0) + 1
     ctx.cov["line_forms"] = dict(sorted(forms.items()))
+    kinds = {}
+    for run in runs:
+        for l in run["lines"]:
+            if l["cm"]:
+                k = "%s line, %s comment" % ("pinned" if l["f"] in PIN_FORMS + ["spaced"] else "unpinned" if l["f"] in UNPINNED_FORMS else
+                                            "comment-only" if l["f"] == "comment" else "ignored", l["cm"])
+                kinds[k] = kinds.get(k, 0) + 1
+    ctx.cov["lines_with_comment"] = dict(sorted(kinds.items()))
+    ctx.cov["comment_symbols_seen"] = sorted({t["s"] for run in runs for l in run["lines"] if l["cm"] == "tricky"
+                                              for t in l["toks"][[i for i, t in enumerate(l["toks"]) if t["s"] == "#"][0]:] if is_spec(t)})
+    if any(not kinds.get("%s line, tricky comment" % k) for k in ("pinned", "unpinned", "comment-only", "ignored")) or \
+            len(ctx.cov["comment_symbols_seen"]) < len(SPEC_SYMS):
+        raise MachineryFailure("vacuous coverage: requirement-like comments %s symbols %s" % (kinds, ctx.cov["comment_symbols_seen"]))
     if ctx.cov["installs_observed"] == 0 or len(forms) < 15:
         raise MachineryFailure("vacuous coverage: installs=%d forms=%s" % (ctx.cov["installs_observed"], sorted(forms)))
     ctx.cov["phase_wall_s"] = {"all": round(time.time() - t0, 1)}
@@ -610,7 +779,9 @@ def main(ctx):
                                              "record_after": run["raw"]["rec2"]} for run in c["runs"]]})
     ctx.assumptions += [
         "versions are plain release numbers (PEP 440 release segments); pre/post/dev/local versions and epochs are not generated",
-        "classified line forms are rendered to text by harness/drivers/c20.py:render (the bridge to RequirementsCore!Kind)",
+        "a requirement line is a token sequence; its text is the concatenation of the token texts (harness/drivers/c20.py:tok_text, the "
+        "bridge); what it means is RequirementsCore!Classify; the generator's form labels are cross-checked against it (LabelOk)",
+        "an inline comment is preceded by white space (pip's rule); `pkg==1.0#text` without a blank is not generated",
         "requirements files live at the documented places (pyscript/, apps/X/, modules/X/) and scripts/X/ (REQUIREMENTS_PATHS)",
         "the installer succeeds: a pinned install makes exactly that version appear; an unpinned install makes the scripted 'latest' "
         "appear or nothing; whether stale record entries of foreign packages are dropped is left open by the statement (both accepted)",
